@@ -1666,7 +1666,7 @@ fn generate(tier: &str, seed: u64) -> (Vec<String>, BTreeMap<String, u64>) {
         }
         for (label, ops) in [
             ("sigma2resume_lost_then_old_sigma1_replayed", vec![h(1, NODE_B, ""), h(1, NODE_B, "1.0.x"), h(1, NODE_B, "0.0.rp:1:0:0")]),
-            ("finished_lost_then_old_sigma1_replayed_and_finished_forged", vec![h(1, NODE_B, ""), h(1, NODE_B, "0.1.x"), h(1, NODE_B, "0.0.rp:1:0:0+1.0.x")]),
+            ("finished_lost_then_old_sigma1_replayed_and_finished_forged", vec![h(1, NODE_B, ""), h(1, NODE_B, "0.1.x"), h(1, NODE_B, "0.0.rp:1:0:0+0.1.st:0:0")]),
             ("finished_failure_forged_to_success", vec![h(1, NODE_B, ""), h(1, NODE_B, "1.0.fb:2:9+0.1.st:0:0")]),
             ("finished_success_to_failure", vec![h(1, NODE_B, ""), h(1, NODE_B, "0.1.st:1:2")]),
             ("sigma2resume_replaced_by_full_sigma2_of_run0", vec![h(1, NODE_B, ""), h(1, NODE_B, "1.0.rp:0:1:0")]),
